@@ -10,13 +10,15 @@ stdout last line: [{"ok":bool,"globals":[bool..],"args_same":bool,"exc":str}]
 """
 import argparse
 import collections
+import dataclasses
+import datetime
 import enum
 import io
 import json
 import os
 import shutil
 import sys
-from typing import Dict, List, Mapping, Tuple
+from typing import Callable, Dict, List, Literal, Mapping, Set, Tuple, Type, TypedDict, Union
 
 from jsonargparse import ActionConfigFile, ArgumentParser, Namespace
 from jsonargparse._common import load_value_mode, parser_context_vars
@@ -88,7 +90,60 @@ def deep(o):
         return (type(o).__name__, id(o), [(k, deep(v)) for k, v in o.items()])
     if isinstance(o, (list, tuple)):
         return (type(o).__name__, id(o), [deep(v) for v in o])
+    if isinstance(o, (set, frozenset)):
+        return (type(o).__name__, id(o), sorted(repr(v) for v in o))
     return (type(o).__name__, repr(o))
+
+
+class Scale:
+    """a class whose instances are callable (Callable[[int], int] given as class_path/init_args); also used as class group"""
+    def __init__(self, k: int = 2):
+        self.k = k
+
+    def __call__(self, x: int) -> int:
+        return self.k * x
+
+
+@dataclasses.dataclass
+class Pt:
+    x: int = 0
+    ys: List[int] = dataclasses.field(default_factory=list)
+
+
+class TD(TypedDict):
+    x: int
+    ys: List[int]
+
+
+def ty_parser():
+    p = ArgumentParser(exit_on_error=False)
+    p.add_argument("--lit", type=Literal["a", "b", 3], default="a")
+    p.add_argument("--un", type=Union[int, List[int]], default=0)
+    p.add_argument("--en", type=Color, default=Color.RED)
+    p.add_argument("--st", type=Set[int], default=None)
+    p.add_argument("--di", type=Dict[int, List[int]], default=None)
+    p.add_argument("--td", type=TD, default=None)
+    p.add_argument("--ty", type=Type[Scale], default=None)
+    p.add_argument("--cb", type=Callable[[int], int], default=None)
+    p.add_argument("--dcs", type=List[Pt], default=None)
+    p.add_argument("--dur", type=datetime.timedelta, default=None)
+    p.add_argument("--seq", type=List[int], default=[1])
+    p.add_argument("--dk", type=Dict[str, int], default=None)
+    p.add_argument("--a", type=int, default=1)
+    return p
+
+
+def ty_values(parsed, fail):
+    """raw (as a user writes them) or parsed-form values; every container is the caller's own object"""
+    if parsed:
+        return {"lit": 3, "un": [1, 2], "en": Color.BLUE, "st": {1, 2}, "di": {1: [1]}, "td": {"x": 1, "ys": [2]},
+                "ty": Scale, "cb": Namespace(class_path="__main__.Scale", init_args=Namespace(k=4)),
+                "dcs": [Namespace(x=1, ys=[2])], "dur": datetime.timedelta(hours=1), "seq": [1, 2], "dk": {"a": 1},
+                "a": "x" if fail else 5}
+    return {"lit": "b", "un": ["1", 2], "en": "BLUE", "st": ["1", 2], "di": {"1": ["1"]}, "td": {"x": "1", "ys": ["2"]},
+            "ty": "__main__.Scale", "cb": {"class_path": "__main__.Scale", "init_args": {"k": "4"}},
+            "dcs": [{"x": "1", "ys": ["2"]}], "dur": "1:00:00", "seq": ["1", 2], "dk": {"a": "1"},
+            "a": "x" if fail else 5}
 
 
 def od_parser():
@@ -238,6 +293,71 @@ def run(case, base, idx):
         if not fail:
             os.remove(os.path.join(work, "real", "out.yaml"))      # fail: the target exists and overwrite is off
         call = (lambda: p.dump(arg)) if entry == "dump_links" else (lambda: p.save(arg, out))
+    elif entry in ("ty_parse_object", "ty_validate", "ty_dump", "ty_instantiate", "ty_parse_args"):
+        # the branches of adapt_typehints the heap model has no types for: Literal, Union, Enum, Set, Dict[int,.], TypedDict
+        # (val[k] = ... write-back), Type[...], callable class specs (val["class_path"] = ...), dataclasses inside lists,
+        # registered types, class instances; the values handed over are the caller's own containers
+        p = ty_parser()
+        if entry == "ty_parse_object":
+            arg = ty_values(False, fail)
+            call = lambda: p.parse_object(arg)
+        elif entry == "ty_parse_args":
+            arg = ["--seq+", "3", "--seq+=[4, 5]", "--dk.a", "1", "--dk.b=2", "--lit", "b", "--un=[1, 2]", "--en", "BLUE",
+                   "--st=[1, 2]", "--cb", "__main__.Scale", "--cb.k", "x" if fail else "4", "--dcs+", '{"x": "1", "ys": ["2"]}']
+            call = lambda: p.parse_args(arg)
+        else:
+            arg = Namespace(**ty_values(entry == "ty_dump", fail))
+            call = {"ty_validate": lambda: p.validate(arg), "ty_dump": lambda: p.dump(arg),
+                    "ty_instantiate": lambda: p.instantiate_classes(arg)}[entry]
+    elif entry in ("validate_required", "validate_group_scalar", "validate_group_extra"):
+        p = ArgumentParser(exit_on_error=False)
+        p.add_argument("--need", type=List[int], required=True)
+        p.add_argument("--g.x", type=int, default=1)
+        p.add_argument("--g.l", type=List[int], default=[1])
+        if entry == "validate_required":
+            arg = Namespace(g=Namespace(x=1, l=[2])) if fail else Namespace(need=[1, 2], g=Namespace(x=1, l=[2]))
+        elif entry == "validate_group_scalar":
+            arg = Namespace(need=[1], g=[5]) if fail else Namespace(need=[1], g=Namespace(x=2, l=[3]))
+        else:
+            arg = Namespace(need=[1], g=Namespace(x=2, l=[3], zz=[4])) if fail else Namespace(need=[1], g=Namespace(x=2, l=[3]))
+        call = lambda: p.validate(arg)
+    elif entry in ("inst_sub", "inst_sub_empty"):
+        # instantiate_classes through a subcommand whose parser has a dataclass argument, a class group and a typed list
+        sub = ArgumentParser(exit_on_error=False)
+        sub.add_argument("--pt", type=Pt, default=Pt(x=1, ys=[1]))
+        sub.add_class_arguments(Scale, "sc")
+        sub.add_argument("--l", type=List[int], nargs="*", default=[[1]])
+        p = ArgumentParser(exit_on_error=False)
+        p.add_argument("--top", type=List[int], default=[0])
+        sc = p.add_subcommands()
+        sc.add_subcommand("fit", sub)
+        if entry == "inst_sub":
+            arg = p.parse_args(["fit", "--pt.x=3", "--sc.k=5", "--l", "[1, 2]", "[3]"])
+            if fail:
+                arg.fit.l = [["x"]]
+        else:
+            # only the subcommand's branch is given, everything in it empty
+            arg = Namespace(fit=Namespace(), subcommand="fit")
+            if fail:
+                arg.fit = Namespace(l=[["x"]])
+        call = lambda: p.instantiate_classes(arg)
+    elif entry in ("dflt_many_get_defaults", "dflt_many_parse_args"):
+        # several default config files (one of them empty), defaults declared through set_defaults (mapping and keyword form)
+        f1 = place(os.path.join(work, "1"), kind, "d1.yaml", "a: 5\nd:\n  k: 2\n")
+        f2 = place(os.path.join(work, "2"), kind, "d2.yaml", "")
+        f3 = place(os.path.join(work, "3"), kind, "d3.yaml", "l: [7]\n")
+        f4 = place(os.path.join(work, "4"), kind, "d4.yaml", "zz: 1\n" if fail else "a: 6\n")
+        p = ArgumentParser(exit_on_error=False, default_config_files=[f1, f2, f3, f4])
+        p.add_argument("--a", type=int, default=1)
+        p.add_argument("--d", type=Dict[str, int], default={"k": 1})
+        p.add_argument("--l", type=List[int])
+        p.add_class_arguments(Scale, "sc")
+        user = {"l": [1, 2], "d": {"k": 3}}
+        p.set_defaults({"l": user["l"], "sc": {"k": 3}})
+        p.set_defaults(d=user["d"])
+        p.c08_user = user
+        arg = []
+        call = p.get_defaults if entry == "dflt_many_get_defaults" else (lambda: p.parse_args(arg))
     else:
         raise SystemExit("unknown entry " + entry)
     snap = deep(arg)
